@@ -195,3 +195,29 @@ def lemma_c15_pipeline_order():
             _ob("L-C15/step/rejected", "a duplicate / out-of-order trigger changes nothing", [I, nxt_rej], I2),
             _ob("L-C15/goal/once", "no stage is ever submitted twice; stage s+1 only after stage s", [I],
                 z3.ForAll([s], z3.And(sub(s) <= 1, z3.Implies(z3.And(sub(s + 1) == 1, s >= 1), sub(s) == 1))))]
+
+
+# ---------------------------------------------------------------------------------------------------
+def lemma_c03_unique_classification():
+    """L-C03: on an acyclic dependency relation, two labellings that are both locally consistent with the same exit codes and
+    cancel flags are equal (induction on a rank function).  The local-consistency predicate mentions no batching parameter,
+    node limit, group or schedule - so the final classification cannot depend on them."""
+    Job = z3.DeclareSort("JobC")
+    OK, FAILED, CANCELED = 0, 1, 2
+    L1, L2 = z3.Function("L1", Job, z3.IntSort()), z3.Function("L2", Job, z3.IntSort())
+    rc = z3.Function("rc", Job, z3.IntSort())
+    flag = z3.Function("flag", Job, z3.BoolSort())
+    D = z3.Function("D", Job, Job, z3.BoolSort())      # D(j, b): b is in blocked_by(j)
+    rank = z3.Function("rank", Job, z3.IntSort())
+    j, b = z3.Consts("j b", Job)
+    r = z3.Int("r")
+    acyclic = z3.ForAll([j, b], z3.Implies(D(j, b), z3.And(rank(b) < rank(j), rank(b) >= 0)))
+
+    def consistent(L):
+        canceled = z3.And(flag(j), z3.Exists([b], z3.And(D(j, b), L(b) != OK)))
+        return z3.ForAll([j], z3.And(z3.Or(L(j) == OK, L(j) == FAILED, L(j) == CANCELED),
+                                     (L(j) == CANCELED) == canceled,
+                                     z3.Implies(z3.Not(canceled), (L(j) == OK) == (rc(j) == 0))))
+    hyp = z3.ForAll([b], z3.Implies(rank(b) < r, L1(b) == L2(b)))
+    return [_ob("L-C03/step", "two locally consistent labellings agree on every job of rank r if they agree below r",
+                [acyclic, consistent(L1), consistent(L2), hyp], z3.ForAll([j], z3.Implies(rank(j) == r, L1(j) == L2(j))))]
